@@ -48,6 +48,8 @@ pub struct Row {
     pub mode: Mode,
     /// Number of cases of this row.
     pub n: u64,
+    /// Substitution values per byte (substitution stage only).
+    pub n_sub: u64,
 }
 
 pub struct Table {
@@ -226,6 +228,11 @@ pub fn valid_streams(thorough: bool) -> Vec<ValidStream> {
     out
 }
 
+/// fqzcomp decoding costs >= 25 ms per call (model tables): its valid streams get the six-value alphabet in both tiers.
+fn stream_n_sub(s: &ValidStream, n_sub: u64) -> u64 {
+    if s.codec == Codec::Fqzcomp { 6 } else { n_sub }
+}
+
 pub fn hex(s: &str) -> Vec<u8> {
     (0..s.len() / 2).filter_map(|i| u8::from_str_radix(&s[2 * i..2 * i + 2], 16).ok()).collect()
 }
@@ -281,6 +288,9 @@ impl Plan {
         let docs: Vec<Doc> = vnd::corpus(thorough);
         let prep: Vec<Option<mutate::BgzfDoc>> = docs.iter().map(|d| if d.format.is_bgzf() { Some(mutate::BgzfDoc::new(d)) } else { None }).collect();
         let n_sub = if thorough { 255 } else { 6 };
+        // thorough: all 255 values on the documents that are also in the quick corpus, the six-value alphabet on
+        // the additional thorough documents (stated in the evidence)
+        let quick_names: std::collections::HashSet<String> = if thorough { vnd::corpus(false).iter().map(|d| d.name.clone()).collect() } else { Default::default() };
         let mut trunc = Vec::new();
         let mut subst = Vec::new();
         let mut fields = Vec::new();
@@ -299,11 +309,12 @@ impl Plan {
             for &layer in &layers {
                 for &mode in &modes {
                     let len = layer_len(d, layer) as u64;
-                    trunc.push(Row { doc: i, layer, mode, n: len });
-                    subst.push(Row { doc: i, layer, mode, n: len * n_sub });
+                    let ns = if !thorough || quick_names.contains(&d.name) { n_sub } else { 6 };
+                    trunc.push(Row { doc: i, layer, mode, n: len, n_sub: ns });
+                    subst.push(Row { doc: i, layer, mode, n: len * ns, n_sub: ns });
                     let nf = layer_fields(d, layer).len() as u64;
                     if nf > 0 {
-                        fields.push(Row { doc: i, layer, mode, n: nf * FIELD_SLOTS });
+                        fields.push(Row { doc: i, layer, mode, n: nf * FIELD_SLOTS, n_sub: ns });
                     }
                 }
             }
@@ -332,7 +343,7 @@ impl Plan {
         let mut t = 0u64;
         for s in &streams {
             stream_starts.push(t);
-            t += s.bytes.len() as u64 * n_sub + s.bytes.len() as u64;
+            t += s.bytes.len() as u64 * stream_n_sub(s, n_sub) + s.bytes.len() as u64;
         }
         Self { thorough, docs, prep, trunc: Table::new(trunc), subst: Table::new(subst), fields: Table::new(fields), n_sub, codecs, max_len, streams, stream_starts, stream_total: t }
     }
@@ -360,8 +371,8 @@ impl Plan {
     }
 
     /// Substitution value number `j` for original byte `b` (`None`: equals the original or an earlier value).
-    fn sub_value(&self, b: u8, j: u64) -> Option<u8> {
-        if self.thorough {
+    fn sub_value(&self, b: u8, j: u64, n_sub: u64) -> Option<u8> {
+        if n_sub == 255 {
             return Some(b.wrapping_add(1 + j as u8));
         }
         let vals = [0x00, 0xff, b ^ 0x01, b ^ 0x80, b.wrapping_add(1), b.wrapping_sub(1)];
@@ -418,13 +429,13 @@ impl Plan {
             ST_SUBST => {
                 let (row, r) = self.subst.locate(case);
                 let d = &self.docs[row.doc];
-                let off = (r / self.n_sub) as usize;
-                let j = r % self.n_sub;
+                let off = (r / row.n_sub) as usize;
+                let j = r % row.n_sub;
                 let orig = match row.layer {
                     Layer::Outer => d.bytes[off],
                     Layer::Inner => d.inner.as_ref().unwrap().bytes[off],
                 };
-                let v = self.sub_value(orig, j)?;
+                let v = self.sub_value(orig, j, row.n_sub)?;
                 Some((row, self.patched(row, off, &[v]), format!("byte {off}: {orig:#04x} -> {v:#04x}")))
             }
             ST_FIELDS => {
@@ -476,11 +487,11 @@ impl Plan {
             let st = &self.streams[r];
             let k = case - self.stream_starts[r];
             let len = st.bytes.len() as u64;
-            let ns = self.n_sub;
+            let ns = stream_n_sub(st, self.n_sub);
             if k < len * ns {
                 let off = (k / ns) as usize;
                 let mut b = st.bytes.clone();
-                let v = match self.sub_value(b[off], k % ns) {
+                let v = match self.sub_value(b[off], k % ns, ns) {
                     Some(v) => v,
                     None => b[off] ^ 0xaa, // duplicate slot of the quick alphabet: use one more value
                 };
